@@ -99,10 +99,9 @@ Definition record_spread_entries (v : value) : list (string * value) :=
 Definition rec_insert_all (r : list (string * value)) (es : list (string * value)) :=
   fold_left (fun acc kv => rec_insert acc (fst kv) (snd kv)) es r.
 
-(* factorial (expressions.rs:637): n >= 0 && n == (n as u64) as f64; product of 1..=n.
-   The product is +inf from 171 on, so for 171 <= n < 2^64 the mathematical result of the
-   Rust loop is +inf (the loop itself would run n iterations).  n = 2^64 saturates the cast
-   and `+ 1` overflows: a debug-build panic (release wraps to an empty range, result 1). *)
+(* factorial (expressions.rs:649): n >= 0 && n == (n as u64) as f64; product of 1..=min(n, 171)
+   (repo fix def3962: 171! is already +inf, so the loop is capped there; before the fix the loop
+   ran n times and `n + 1` overflowed for n = 2^64) *)
 Fixpoint fact_prod (k : nat) (i : Z) (acc : num) : num :=
   match k with
   | O => acc
@@ -110,10 +109,7 @@ Fixpoint fact_prod (k : nat) (i : Z) (acc : num) : num :=
   end.
 Definition factorial_val (release : bool) (n : num) : outcome value :=
   if ngeb n nzero && neqb n (num_of_Z (as_u64 n)) then
-    let z := as_u64 n in
-    if (z =? U64_MAX)%Z then (if release then Ok (VNum (num_of_Z 1)) else Panic)
-    else if (z <=? 200)%Z then Ok (VNum (fact_prod (Z.to_nat z) 1 (num_of_Z 1)))
-    else Ok (VNum npinf)
+    Ok (VNum (fact_prod (Z.to_nat (Z.min (as_u64 n) 171)) 1 (num_of_Z 1)))
   else Err.
 
 (* keyword lists, as written in the two assignment paths *)
